@@ -64,6 +64,11 @@ def enumerate_cases(tier: str):
             for k in (0, 9):
                 yield {"kind": kind, "fault": "body", "file": "registry", "k": k, "T": None, "mutate": True, "body_exc": name}
             yield {"kind": kind, "fault": "body", "file": "registry", "k": 2, "T": 901, "mutate": True, "body_exc": name}
+    # the same gateway object lives on under a second event loop (asyncio.run called again)
+    for kind in KINDS:
+        for fault in ("none", "body", "cancel-body"):
+            for k, T in ((0, None), (9, None), (2, 901)):
+                yield {"kind": kind, "fault": fault, "file": "registry", "k": k, "T": T, "mutate": True, "new_loop": True}
     # a second gateway in the same loop keeps saving on schedule whatever happens to this one
     for kind in KINDS:
         for fault in FAULTS:
@@ -113,6 +118,7 @@ def strategy(tier: str):
             "prefill": st.sampled_from((False, False, True)),
             "body_exc": st.sampled_from(BODY_EXCS),
             "bystander": st.sampled_from((False, False, True)),
+            "new_loop": st.sampled_from((False, False, True)),
         }
     ).filter(lambda c: c["kind"] == "plain" or (c["kind"] == "plain-nosuspend" and c["fault"] != "connect-timeout") or ("disconnect" not in c["fault"] and c["fault"] != "connect-timeout"))
 
@@ -243,6 +249,42 @@ def run_case(case: dict) -> Outcome:
         return json.loads(json.dumps(env.snapshot(gateway.nodes)))
 
     ignore_tasks: set = set()
+    shared: dict = {}
+
+    async def other_loop_session() -> Outcome | None:
+        """The same Gateway object used again under a NEW event loop (a second asyncio.run in the same process)."""
+        gateway, transport = shared["gateway"], shared["transport"]
+        where = f"kind={kind} file={initial} k={k} T={T}, second session under a new event loop"
+        me = asyncio.current_task()
+        before = getattr(transport, "disconnected", 0)
+        try:
+            async with gateway:
+                await asyncio.sleep(1)
+                state, doc = disk()
+                if state != "ok" or doc != registry_doc(gateway):
+                    return fail("new-loop:no-save-after-entering", f"{where}: one virtual second after entry the file is {state} {str(doc)[:120]!r}")
+                gateway.nodes[12] = Node(12, 17, "2.2")
+                await asyncio.sleep(901.5)
+                state, doc = disk()
+                if state != "ok" or doc != registry_doc(gateway):
+                    return fail("new-loop:periodic-save-missing", f"{where}: 15 minutes after a change the file is {state} {str(doc)[:160]!r}")
+                gateway.nodes[13] = Node(13, 17, "2.2")
+                for _ in range(k):
+                    await asyncio.sleep(0)
+                final_doc = registry_doc(gateway)
+        except BaseException as err:  # noqa: BLE001
+            return fail(f"new-loop:raised-{type(err).__name__}", f"{where}: {err!r}")
+        for _ in range(3):
+            await asyncio.sleep(0)
+        left = [t for t in asyncio.all_tasks() if t is not me and not t.done()]
+        if left:
+            return fail("new-loop:task-left", f"{where}: tasks left: {left!r}")
+        if getattr(transport, "disconnected", before + 1) != before + 1:
+            return fail("new-loop:disconnect-count", f"{where}: disconnect ran {transport.disconnected - before} times in this session")
+        state, doc = disk()
+        if state != "ok" or doc != final_doc:
+            return fail("new-loop:final-save-missing", f"{where}: after exit the file is {state} {str(doc)[:160]!r}")
+        return None
 
     async def main() -> Outcome | None:
         if not case.get("bystander"):
@@ -280,6 +322,7 @@ def run_case(case: dict) -> Outcome:
         loop = asyncio.get_running_loop()
         transport = _make_transport(kind, fault)
         gateway = Gateway(transport, Config(persistence_file=path))
+        shared["gateway"], shared["transport"] = gateway, transport
         if case.get("prefill"):
             gateway.nodes[21] = Node(21, 17, "2.0")  # known to the application before the context is entered
         me = asyncio.current_task()
@@ -434,6 +477,8 @@ def run_case(case: dict) -> Outcome:
     try:
         try:
             bad, _loop = run_virtual(main)
+            if bad is None and case.get("new_loop") and fault in ("none", "body", "cancel-body") and "gateway" in shared:
+                bad, _loop = run_virtual(other_loop_session)
         except Deadlock:
             bad = fail("deadlock", f"{case}: the event loop has nothing left to run")
     finally:
